@@ -84,6 +84,33 @@ pub fn standin_identifier_between(r: &mut Report, tier: &str) {
             r.case("identifier.between_high_only", &c < a && *c.value() == m, &|| format!("between(None, {}, {})", show(a), m), &|| format!("got {}", show(&c)));
         }
     }
+    if thorough {
+        // random deep identifiers: arbitrary paths of depth <= 7 and identifiers reached by iterating `between`
+        r.bound.push_str("; thorough: 400000 random triples over arbitrary paths of depth <= 7 (rationals k/4, k in -8..=8, markers 0..=6) and over identifiers reached by 3000 rounds of `between` on a growing pool");
+        let mut s: u64 = 0x5eed1234;
+        let mut pool: Vec<Identifier<u8>> = vec![];
+        for _ in 0..4000 {
+            let d = 1 + (lcg(&mut s) % 7) as usize;
+            let p: Vec<Node> = (0..d).map(|_| (rat((lcg(&mut s) % 17) as i64 - 8, 4), (lcg(&mut s) % 7) as u8)).collect();
+            pool.push(ident(&p));
+        }
+        for _ in 0..3000 {
+            let a = pool[(lcg(&mut s) as usize) % pool.len()].clone();
+            let b = pool[(lcg(&mut s) as usize) % pool.len()].clone();
+            if a != b { pool.push(Identifier::between(Some(&a), Some(&b), (lcg(&mut s) % 7) as u8)); }
+        }
+        for _ in 0..400000 {
+            let a = &pool[(lcg(&mut s) as usize) % pool.len()];
+            let b = &pool[(lcg(&mut s) as usize) % pool.len()];
+            let m = (lcg(&mut s) % 7) as u8;
+            let want = spec_cmp(&path_of(a), &path_of(b));
+            r.case("identifier.cmp_is_lexicographic", a.cmp(b) == want, &|| format!("cmp({}, {})", show(a), show(b)), &|| format!("got {:?} want {:?}", a.cmp(b), want));
+            if want == Ordering::Equal { continue; }
+            let c = Identifier::between(Some(a), Some(b), m);
+            let (lo, hi) = if want == Ordering::Less { (a, b) } else { (b, a) };
+            r.case("identifier.between_two_bounds", lo < &c && &c < hi && *c.value() == m, &|| format!("between({}, {}, {})", show(a), show(b), m), &|| format!("got {}", show(&c)));
+        }
+    }
     let c = Identifier::between(None, None, 9u8);
     r.case("identifier.between_no_bound", *c.value() == 9 && path_of(&c).len() == 1, &|| "between(None, None, 9)".into(), &|| format!("got {}", show(&c)));
     // order laws on all triples of the shallow identifiers
